@@ -278,117 +278,152 @@ Eval == rn.stage # "end" /\ Set(RunF(S))
 SpecTable == Init /\ [][Eval]_vars
 
 (* ---------------------------------------------------------------------- *)
-(* properties (state predicates over scn, es and the histories)           *)
+(* properties: state predicates over scn, es and the histories.           *)
+(* A clause about requests is written XOn(J) for a set J of positions of   *)
+(* `wire` and only looks at the history up to each j \in J; a clause about *)
+(* runner calls is written XOn(C) for a set C of positions of `calls`.     *)
+(* The invariant is X == XOn(all positions).  (Trace validation checks the *)
+(* new position after every event and all positions at the end of a run.)  *)
 (* ---------------------------------------------------------------------- *)
 Calls == 1..Len(calls)
 Wire == 1..Len(wire)
+CallOf(j) == wire[j].call
+OpOfCall(j) == calls[CallOf(j)].op
 OfCall(c) == {i \in Wire : wire[i].call = c}
-PageReqs(c) == {i \in OfCall(c) : wire[i].req.op \in {"search", "scroll"}}
+IsPageReq(j) == wire[j].req.op \in {"search", "scroll"}
+PageReqs(c) == {i \in OfCall(c) : IsPageReq(i)}
 OkPages(c) == {i \in PageReqs(c) : wire[i].resp.ok}
-Paged(c) == calls[c].op \in Scrolls \cup Paginated
-Adj(X, i, j) == i \in X /\ j \in X /\ i < j /\ ~\E m \in X : i < m /\ m < j
+PagedOp(op) == op \in Scrolls \cup Paginated
+PrevIn(X, j) == LET B == {i \in X : i < j} IN IF B = {} THEN 0 ELSE SetMax(B)
 LastHit(p) == p.from + p.cnt - 1
 RECURSIVE SumTook(_)
 SumTook(X) == IF X = {} THEN 0 ELSE LET i == SetMin(X) IN wire[i].resp.took + SumTook(X \ {i})
 
 (* every hit of the result set is fetched at most once and in order: the pages of one call are contiguous *)
-InOrderOnce ==
-    \A c \in Calls : \A i, j \in OkPages(c) : Adj(OkPages(c), i, j) => wire[j].resp.from = wire[i].resp.from + wire[i].resp.cnt
+InOrderOnceOn(J) ==
+    \A j \in J : (IsPageReq(j) /\ wire[j].resp.ok) =>
+        LET i == PrevIn(OkPages(CallOf(j)), j) IN i # 0 => wire[j].resp.from = wire[i].resp.from + wire[i].resp.cnt
 (* ... and every call starts in front of the first hit *)
-StartsAtFirstHit ==
-    \A c \in Calls : Paged(c) =>
-        /\ \A i \in PageReqs(c) : i = SetMin(PageReqs(c)) => wire[i].req.sa = 0
-        /\ \A i \in OkPages(c) : i = SetMin(OkPages(c)) => wire[i].resp.from = 1
+StartsAtFirstHitOn(J) ==
+    \A j \in J : (IsPageReq(j) /\ PagedOp(OpOfCall(j))) =>
+        /\ PrevIn(PageReqs(CallOf(j)), j) = 0 => wire[j].req.sa = 0
+        /\ (wire[j].resp.ok /\ PrevIn(OkPages(CallOf(j)), j) = 0) => wire[j].resp.from = 1
 (* never more pages than asked for *)
-PagesWithinLimit == \A c \in Calls : Paged(c) /\ scn.pages # 0 => Cardinality(PageReqs(c)) <= scn.pages
+PagesWithinLimitOn(J) ==
+    \A j \in J : (IsPageReq(j) /\ PagedOp(OpOfCall(j)) /\ scn.pages # 0) =>
+        Cardinality({i \in PageReqs(CallOf(j)) : i <= j}) <= scn.pages
 (* "if a query yields fewer results than the specified number of pages we terminate earlier" *)
-NoRequestAfterEmptyPage ==
-    \A c \in Calls : \A i, j \in PageReqs(c) : i < j => ~(wire[i].resp.ok /\ wire[i].resp.cnt = 0)
-(* a successful call that was not stopped by the page limit has seen the whole result set (exact totals only) *)
-Complete ==
-    \A c \in Calls : (Paged(c) /\ calls[c].st = "ok" /\ Rel(scn) = "eq" /\ OkPages(c) # {}
-                      /\ (scn.pages = 0 \/ Cardinality(PageReqs(c)) < scn.pages)) =>
-        LET p == wire[SetMax(OkPages(c))].resp IN p.cnt = 0 \/ LastHit(p) >= scn.n
-(* the scroll context is ALWAYS cleared, also when a scroll request raised (unless clear_scroll itself failed) *)
-ScrollCleared ==
-    \A c \in Calls : calls[c].st # "run" =>
-        \A i \in OfCall(c) : (wire[i].req.scroll /\ wire[i].resp.ok) =>
-            LET x == wire[i].resp.id.c
-            IN /\ x \in 1..Len(es.scrolls)
-               /\ \/ es.scrolls[x].st = "closed"
-                  \/ \E j \in OfCall(c) : wire[j].req.op = "clear" /\ ~wire[j].resp.ok /\ wire[j].req.sid.c = x
-(* ... and never used after it has been cleared *)
-NoUseAfterClear ==
-    \A i, j \in Wire : (i < j /\ wire[i].req.op = "clear" /\ wire[i].resp.ok /\ wire[j].req.op \in {"scroll", "clear"}) =>
-        wire[j].req.sid.c # wire[i].req.sid.c
+NoRequestAfterEmptyPageOn(J) ==
+    \A j \in J : IsPageReq(j) => \A i \in PageReqs(CallOf(j)) : i < j => ~(wire[i].resp.ok /\ wire[i].resp.cnt = 0)
+(* the scroll context is never used after it has been cleared *)
+NoUseAfterClearOn(J) ==
+    \A j \in J : wire[j].req.op \in {"scroll", "clear"} =>
+        \A i \in 1..(j - 1) : (wire[i].req.op = "clear" /\ wire[i].resp.ok) => wire[j].req.sid.c # wire[i].req.sid.c
 (* the scroll id / pit id sent is the one most recently returned *)
-LatestScrollId ==
-    \A j \in Wire : wire[j].req.op \in {"scroll", "clear"} =>
+LatestScrollIdOn(J) ==
+    \A j \in J : wire[j].req.op \in {"scroll", "clear"} =>
         LET prev == {i \in 1..(j - 1) : wire[i].resp.ok /\ wire[i].resp.id.k = "s" /\ wire[i].resp.id.c = wire[j].req.sid.c}
         IN prev # {} /\ wire[j].req.sid = wire[SetMax(prev)].resp.id
 ItOf(i) == calls[wire[i].call].it
-LatestPitId ==
-    \A j \in Wire : (wire[j].req.pit # NoId \/ wire[j].req.op = "close") =>
+LatestPitIdOn(J) ==
+    \A j \in J : (wire[j].req.pit # NoId \/ wire[j].req.op = "close") =>
         LET prev == {i \in 1..(j - 1) : ItOf(i) = ItOf(j) /\ wire[i].resp.ok /\ wire[i].resp.id.k = "p"}
         IN prev # {} /\ wire[j].req.pit = wire[SetMax(prev)].resp.id
 (* search_after of request i+1 = sort values of the last hit of response i *)
-SearchAfterChain ==
-    \A c \in Calls : calls[c].op \in Paginated =>
-        \A i, j \in PageReqs(c) : Adj(PageReqs(c), i, j) =>
-            wire[i].resp.ok /\ (wire[i].resp.cnt > 0 => wire[j].req.sa = LastHit(wire[i].resp))
-(* the returned meta data are what the fake served *)
-MetaFaithful ==
-    \A c \in Calls : calls[c].st = "ok" =>
-        LET m == calls[c].meta
-            P == OkPages(c)
-            f == wire[SetMin(P)].resp
-        IN CASE Paged(c) -> /\ P # {} /\ m.w = Cardinality(P) /\ m.pages = m.w /\ m.unit = "pages"
-                            /\ m.hits = f.total /\ m.rel = f.rel
-                            /\ m.tout = (\E i \in P : wire[i].resp.tout) /\ m.took = SumTook(P)
-             [] calls[c].op = "dsearch" -> /\ P # {} /\ m.w = 1 /\ m.unit = "ops" /\ m.hits = f.total /\ m.rel = f.rel
-                                           /\ m.tout = f.tout /\ m.took = f.took
-             [] calls[c].op = "search" -> m.w = 1 /\ m.unit = "ops"
-             [] OTHER -> TRUE
-(* nothing is requested after an error, except the clean-up of the scroll; errors surface, and only errors *)
-NothingAfterError ==
-    \A c \in Calls : \A i, j \in OfCall(c) : (i < j /\ ~wire[i].resp.ok) => wire[j].req.op = "clear"
-NoSuccessOnFailure ==
-    \A c \in Calls : calls[c].st = "ok" => \A i \in OfCall(c) : wire[i].resp.ok \/ wire[i].req.op = "clear"
-ErrOnlyIfRequestFailed ==
-    \A c \in Calls : calls[c].st = "err" => \E i \in OfCall(c) : ~wire[i].resp.ok /\ wire[i].req.op # "clear"
-OneCallAtATime == \A c \in Calls : calls[c].st = "run" => c = Len(calls)
-(* points in time: closed when the segment succeeded (a failing segment LEAKS its pit: nothing closes it), never used after close *)
-PitClosedOnSuccess ==
-    \A c \in Calls : (calls[c].op = "close" /\ calls[c].st = "ok") =>
-        \A i \in Wire : (wire[i].req.op = "open" /\ wire[i].resp.ok /\ ItOf(i) = calls[c].it) =>
-            LET x == wire[i].resp.id.c IN x \in 1..Len(es.pits) /\ es.pits[x].st = "closed"
-NoSearchOnClosedPit ==
-    \A i, j \in Wire : (i < j /\ wire[i].req.op = "close" /\ wire[i].resp.ok /\ wire[j].req.pit # NoId) =>
-        wire[j].req.pit.c # wire[i].req.pit.c
+SearchAfterChainOn(J) ==
+    \A j \in J : (IsPageReq(j) /\ OpOfCall(j) \in Paginated) =>
+        LET i == PrevIn(PageReqs(CallOf(j)), j)
+        IN i # 0 => wire[i].resp.ok /\ (wire[i].resp.cnt > 0 => wire[j].req.sa = LastHit(wire[i].resp))
+(* nothing is requested after an error, except the clean-up of the scroll *)
+NothingAfterErrorOn(J) ==
+    \A j \in J : wire[j].req.op # "clear" => \A i \in OfCall(CallOf(j)) : i < j => wire[i].resp.ok
+(* a point in time is never used after it has been closed *)
+NoSearchOnClosedPitOn(J) ==
+    \A j \in J : wire[j].req.pit # NoId =>
+        \A i \in 1..(j - 1) : (wire[i].req.op = "close" /\ wire[i].resp.ok) => wire[j].req.pit.c # wire[i].req.pit.c
 (* what is on the wire: results-per-page as `size`, scroll only on the first request of a scroll call, no index with a pit *)
-RequestShape ==
-    \A i \in Wire :
-        LET q == wire[i].req
-            c == wire[i].call
-            op == calls[c].op
+RequestShapeOn(J) ==
+    \A j \in J :
+        LET q == wire[j].req
+            op == OpOfCall(j)
         IN /\ q.op = "search" => /\ q.size = scn.size
-                                 /\ q.scroll = (op \in Scrolls /\ i = SetMin(PageReqs(c)))
+                                 /\ q.scroll = (op \in Scrolls /\ PrevIn(PageReqs(CallOf(j)), j) = 0)
                                  /\ (q.pit # NoId) = (op = "ppag")
                                  /\ q.idx = (q.pit = NoId)
                                  /\ op \in {"search", "dsearch", "pag", "ppag"} \cup Scrolls
            /\ q.op \in {"scroll", "clear"} => op \in Scrolls
            /\ (q.op = "open") = (op = "open")
            /\ (q.op = "close") = (op = "close")
-(* the model's fake keeps its books: contexts are only opened by requests *)
+
+(* a successful call that was not stopped by the page limit has seen the whole result set (exact totals only) *)
+CompleteOn(C) ==
+    \A c \in C : (PagedOp(calls[c].op) /\ calls[c].st = "ok" /\ Rel(scn) = "eq" /\ OkPages(c) # {}
+                  /\ (scn.pages = 0 \/ Cardinality(PageReqs(c)) < scn.pages)) =>
+        LET p == wire[SetMax(OkPages(c))].resp IN p.cnt = 0 \/ LastHit(p) >= scn.n
+(* the scroll context is ALWAYS cleared, also when a scroll request raised (unless clear_scroll itself failed) *)
+ScrollClearedOn(C) ==
+    \A c \in C : calls[c].st # "run" =>
+        \A i \in OfCall(c) : (wire[i].req.scroll /\ wire[i].resp.ok) =>
+            LET x == wire[i].resp.id.c
+            IN /\ x \in 1..Len(es.scrolls)
+               /\ \/ es.scrolls[x].st = "closed"
+                  \/ \E j \in OfCall(c) : wire[j].req.op = "clear" /\ ~wire[j].resp.ok /\ wire[j].req.sid.c = x
+(* the returned meta data are what the fake served *)
+MetaFaithfulOn(C) ==
+    \A c \in C : calls[c].st = "ok" =>
+        LET m == calls[c].meta
+            P == OkPages(c)
+            f == wire[SetMin(P)].resp
+        IN CASE PagedOp(calls[c].op) ->
+                    /\ P # {} /\ m.w = Cardinality(P) /\ m.pages = m.w /\ m.unit = "pages"
+                    /\ m.hits = f.total /\ m.rel = f.rel
+                    /\ m.tout = (\E i \in P : wire[i].resp.tout) /\ m.took = SumTook(P)
+             [] calls[c].op = "dsearch" ->
+                    /\ P # {} /\ m.w = 1 /\ m.unit = "ops" /\ m.hits = f.total /\ m.rel = f.rel
+                    /\ m.tout = f.tout /\ m.took = f.took
+             [] calls[c].op = "search" -> m.w = 1 /\ m.unit = "ops"
+             [] OTHER -> TRUE
+(* errors surface, and only errors (a failing clear_scroll is only logged) *)
+NoSuccessOnFailureOn(C) ==
+    \A c \in C : calls[c].st = "ok" => \A i \in OfCall(c) : wire[i].resp.ok \/ wire[i].req.op = "clear"
+ErrOnlyIfRequestFailedOn(C) ==
+    \A c \in C : calls[c].st = "err" => \E i \in OfCall(c) : ~wire[i].resp.ok /\ wire[i].req.op # "clear"
+OneCallAtATimeOn(C) == \A c \in C : calls[c].st = "run" => c = Len(calls)
+(* points in time are closed when the segment succeeded (a failing segment LEAKS its pit: nothing closes it) *)
+PitClosedOnSuccessOn(C) ==
+    \A c \in C : (calls[c].op = "close" /\ calls[c].st = "ok") =>
+        \A i \in Wire : (wire[i].req.op = "open" /\ wire[i].resp.ok /\ ItOf(i) = calls[c].it) =>
+            LET x == wire[i].resp.id.c IN x \in 1..Len(es.pits) /\ es.pits[x].st = "closed"
+(* the fake keeps its books: contexts are only opened by requests *)
 EsBooks ==
     /\ es.nreq = Len(wire)
     /\ Len(es.scrolls) = Cardinality({i \in Wire : wire[i].req.op = "search" /\ wire[i].req.scroll /\ wire[i].resp.ok})
     /\ Len(es.pits) = Cardinality({i \in Wire : wire[i].req.op = "open" /\ wire[i].resp.ok})
+
+InOrderOnce == InOrderOnceOn(Wire)
+StartsAtFirstHit == StartsAtFirstHitOn(Wire)
+PagesWithinLimit == PagesWithinLimitOn(Wire)
+NoRequestAfterEmptyPage == NoRequestAfterEmptyPageOn(Wire)
+NoUseAfterClear == NoUseAfterClearOn(Wire)
+LatestScrollId == LatestScrollIdOn(Wire)
+LatestPitId == LatestPitIdOn(Wire)
+SearchAfterChain == SearchAfterChainOn(Wire)
+NothingAfterError == NothingAfterErrorOn(Wire)
+NoSearchOnClosedPit == NoSearchOnClosedPitOn(Wire)
+RequestShape == RequestShapeOn(Wire)
+Complete == CompleteOn(Calls)
+ScrollCleared == ScrollClearedOn(Calls)
+MetaFaithful == MetaFaithfulOn(Calls)
+NoSuccessOnFailure == NoSuccessOnFailureOn(Calls)
+ErrOnlyIfRequestFailed == ErrOnlyIfRequestFailedOn(Calls)
+OneCallAtATime == OneCallAtATimeOn(Calls)
+PitClosedOnSuccess == PitClosedOnSuccessOn(Calls)
 
 TypeOK ==
     /\ rn.stage \in {"idle", "run", "end"} /\ rn.todo \in {"page", "clear", "ret"}
     /\ rn.exc \in {"", "boom", "notfound", "badreq", "internal"}
     /\ \A c \in Calls : calls[c].st \in {"run", "ok", "err"} /\ calls[c].op \in {"search", "dsearch", "scroll", "oscroll", "pag", "ppag", "open", "close"}
     /\ \A i \in Wire : wire[i].call \in Calls /\ wire[i].req.op \in {"search", "scroll", "clear", "open", "close"}
+TypeOKSim == rn.stage \in {"cfgA", "cfgB", "cfgC"} \/ TypeOK
 Terminated == rn.stage = "end"
 =============================================================================
